@@ -116,6 +116,10 @@ class MarkovCheck(object):
             r = random.Random(cs)
             desc = dict(r.choice(small))
             c = simcase.make_markov_case(r, desc, rates=r.choice([(1.0, 1.0), (2.5, 0.6), (0.6, 1.5), (3.0, 1.0)]), tmins=(0, 1.5), with_R0=(self.MODEL == 'SIR'))
+            if k % 3 == 1:
+                # self-loops (left by nx.Graph(nx.configuration_model(...))): a node does not infect itself, so the law is that of the
+                # network without them
+                c['selfloops'] = sorted(r.sample(range(desc['n']), r.randint(1, min(2, desc['n']))))
             for sim in (self.GILL, self.FAST):
                 for mode in (('final', 'stateT') if self.MODEL == 'SIR' else ('stateT', 'stateT2')):
                     cc = dict(c)
@@ -515,6 +519,12 @@ class MarkovCheck(object):
 
     def run_e6(self, case, res):
         G, lab, tw, rw, I0, R0 = simcase.build(case)
+        for i in case.get('selfloops') or []:
+            G.add_edge(lab(i), lab(i))
+            if tw:
+                G.edges[lab(i), lab(i)][tw] = 1.0
+        if case.get('selfloops'):
+            bump(res, 'e6_tests_on_networks_with_self_loops')
         n = case['graph']['n']
         ew, nw = simcase.index_weights(case)
         states, index, Q = ctmc.build_chain(n, [tuple(e) for e in case['graph']['edges']], case['tau'], case['gamma'], ew, nw, self.MODEL)
